@@ -9,28 +9,15 @@ Local Open Scope N_scope.
 Local Opaque parse_version_info version_key to_pep440 format_version incr compile_pattern_re normalize_pattern
   re_match parse_vinfo groupdict.
 
-(* ------------------------------------------------------------------ small string facts *)
-Lemma eqb_str_refl : forall s, eqb_str s s = true.
-Proof. induction s as [|x s IH]; [reflexivity|]. cbn [eqb_str]. rewrite N.eqb_refl. exact IH. Qed.
-
-Lemma eqb_str_eq : forall a b, eqb_str a b = true -> a = b.
-Proof.
-  induction a as [|x a IH]; intros [|y b] H; cbn [eqb_str] in H; try reflexivity; try discriminate H.
-  apply andb_prop in H. destruct H as [H1 H2]. apply N.eqb_eq in H1. rewrite H1, (IH b H2). reflexivity.
-Qed.
-
-Lemma eqb_str_neq : forall a b, eqb_str a b = false -> a <> b.
-Proof. intros a b H E. rewrite E, eqb_str_refl in H. discriminate H. Qed.
-
 (* ------------------------------------------------------------------ the gate: cli._is_valid_version *)
 Lemma gate_ok_inv : forall today raw old new, is_valid_version_v2 today raw old new = GateOk ->
   (exists v, parse_version_info today new raw = POk v) /\ ver_le new old = false.
 Proof.
   intros today raw old new. unfold is_valid_version_v2.
-  destruct (parse_version_info today new raw) as [v| | |] eqn:HP;
-    try (intros H; discriminate H).
-  destruct (ver_le new old) eqn:HL; intros H; [discriminate H|].
-  split; [exists v; reflexivity|reflexivity].
+  destruct (ver_le new old) eqn:HL;
+    (destruct (parse_version_info today new raw) as [v| | |] eqn:HP; intros H; [|discriminate H..]).
+  - discriminate H.
+  - split; [exists v; reflexivity|reflexivity].
 Qed.
 
 Theorem gate_ok_spec : forall today raw old new, is_valid_version_v2 today raw old new = GateOk ->
@@ -71,6 +58,9 @@ Proof.
 Qed.
 
 (* ------------------------------------------------------------------ cli.test *)
+Lemma exit0_inj : forall a b c d, Exit0 a b = Exit0 c d -> a = c /\ b = d.
+Proof. intros a b c d H. injection H. auto. Qed.
+
 Theorem test_exit0_sound : forall today old raw fl date setv new pep,
   test_cmd_v2 today old raw fl date setv = Exit0 new pep ->
   is_valid_version_v2 today raw old new = GateOk
@@ -97,8 +87,8 @@ Proof.
   { intros d.
     destruct (match setv with Some s => INew s | None => incr today old raw fl d end) as [s| |] eqn:HN;
       try (intros H; discriminate H).
-    destruct (is_valid_version_v2 today raw old s) eqn:HG; try (intros H; discriminate H).
-    intros H. injection H as Hs Hp. subst s. subst pep.
+    destruct (is_valid_version_v2 today raw old s) eqn:HG; intros H; [|discriminate H..].
+    apply exit0_inj in H. destruct H as [Hs Hp]. subst s. subst pep.
     destruct (gate_ok_spec _ _ _ _ HG) as (HP & HL & _).
     repeat (split; [first [exact HG | exact HP | exact HL | reflexivity]|]).
     destruct setv as [s|].
